@@ -264,3 +264,23 @@ Example ex_ilog : U_checked_ilog true 8 [255; 255] [3; 0] = Some (Ret (Some 10))
 Proof. vm_compute. repeat split; reflexivity. Qed.
 Example ex_ilog2 : U_checked_ilog2 8 [0; 128] = Some 15 /\ U_checked_ilog2 8 [0; 0] = None /\ I_checked_ilog2 8 [0; 128] = None.
 Proof. vm_compute. repeat split; reflexivity. Qed.
+(* ==== glue tie, round 2 (text written by tools/mk_gluetie.py; keep at the END of the file) ==== *)
+(* ---- tie to the source, second round: the non-loop functions (pow, ilog2, checked_ilog2 (BInt: the ilog! / checked_ilog! expansions), bint checked_pow / overflowing_pow) REGENERATED from /repo/src on every run
+   (Generated/Glue.v, tools/rs2v_glue.py) are the model's, function by function, for every digit width, digit count,
+   build mode and operand (no well-formedness hypothesis): an edit of the source that changes what one of these
+   functions computes or delegates to breaks this theorem ---- *)
+From Bnum.Model Require Import Digit Core Shift AddSub Mul Div Bits Pow.
+From Bnum.Model Require Ops NumTraits.
+From Bnum.Generated Require Import Glue.
+From Bnum.Proofs Require Import GlueTieCommon GlueTieC08.
+Theorem C08_glue_rs_matches_model :
+  (forall dbg w a k, Glue.U_pow dbg w a k = U_pow dbg w a k) /\
+  (forall dbg w a k, Glue.I_pow dbg w a k = I_pow dbg w a k) /\
+  (forall w a, Glue.U_ilog2 w a = U_ilog2 w a) /\
+  (forall w a, Glue.U_checked_ilog2 w a = U_checked_ilog2 w a) /\
+  (forall w a k, Glue.I_checked_pow w a k = I_checked_pow w a k) /\
+  (forall w a, Glue.I_ilog2 w a = I_ilog2 w a) /\
+  (forall w a, Glue.I_checked_ilog2 w a = I_checked_ilog2 w a) /\
+  (forall w a k, Glue.I_overflowing_pow w a k = I_overflowing_pow w a k).
+Proof. exact glue_pow_matches_model. Qed.
+Print Assumptions C08_glue_rs_matches_model.
